@@ -1,15 +1,21 @@
 """U-CAP-V: Verus contracts (unbounded in every size) for the rewindable input handle of src/input.rs:
 CaptureReader::{new, captured, captured_unread_size, rewind, capture_to_end, capture_up_to_size,
 is_source_eof, into_inner, read}, FusedReader::{new, read}, GuardedCaptureReader::{new,
-rewind_and_borrow_mut}, Handle::{from_slice, borrow_mut}, Ref::prefix.
+rewind_and_borrow_mut, rewind_and_take}, Handle::{from_slice, borrow_mut}, Ref::prefix, and `impl From<Handle> for Input`
+(a slice handle becomes that slice; a reader that reached EOF during detection becomes the slice of EVERYTHING captured, no
+byte lost; any other reader stays a reader) -- the conversion that U-MP-X, U-JSN-V and U-CHK-V take as an assumed axiom.
 
 Only specification text lives here; bodies are extracted verbatim from /repo on every run.
 What the extraction changes (all visible as markers in the generated file and undone by the token check):
   * `impl<R> Read for CaptureReader<R>` / `impl<R> Read for FusedReader<R>`: the `read` functions are placed
     in an inherent impl of the same type (Verus cannot attach a precondition to a method of an external trait);
   * `pub(crate)` is dropped from `enum Ref` (Verus derives `open` spec functions for enums);
-  * dropped: `GuardedCaptureReader::rewind_and_take` (`mut self` is not supported by Verus), and with it
-    `Input::from(Handle)` and `Cow::try_from(Handle)`; `Handle::from_reader`; tests.  These stay with the Kani unit U-CAP.
+  * (T15) `fn rewind_and_take(mut self)`: `mut self` is not supported by Verus -> `(self)` plus `let mut verus_self = self;`,
+    `self.` renamed to `verus_self.` in the two-line body;
+  * (T6') `FusedReader::new(cursor).chain(source)` is redirected to the stand-in `io_chain(a, b)` (assumed: some reader);
+  * `pub` added to `enum Input` in the generated file (the contract of the public trait method names its variants);
+  * dropped: `Cow::try_from(Handle)` (a trait method cannot carry the `wf` precondition that `capture_to_end` needs),
+    `Handle::from_reader`; tests.  These stay with the Kani unit U-CAP.
 The abstract view of a CaptureReader is (captured bytes, cursor position, source_eof); wf == position <= len.
 """
 from . import std_specs as S
@@ -17,6 +23,7 @@ from . import std_specs as S
 HEADER = S.CRATE_ATTRS + r'''// GENERATED on every run by /verif/bin/vcheck -- do not edit.  Executable items below are extracted
 // verbatim from the working tree; ghost insertions are wrapped in /*@G<*/ ... /*@G>*/ markers.
 use vstd::prelude::*;
+use std::borrow::Cow;
 use std::io::{self, Cursor, Read, Write};
 verus! {
 global size_of usize == 8;
@@ -91,10 +98,26 @@ GUARD_BORROW_SPEC = '''ensures r.pos_v() == 0, r.captured_v() == old(self).0.cap
         r.source == old(self).0.source, r.wf(),
         *final(r) == final(self).0,'''
 
+GUARD_TAKE_SPEC = '''ensures r.pos_v() == 0, r.captured_v() == self.0.captured_v(), r.source_eof == self.0.source_eof,
+        r.source == self.0.source, self.0.wf() ==> r.wf(),'''
+# C05 / C09 / C02: what a consumed handle turns into -- a slice stays that slice; a reader that reached EOF during detection
+# becomes the slice of everything captured (the reader is dropped); otherwise some reader (which one -- the source itself when
+# nothing was captured, else the captured prefix chained before the source -- is decided by the Kani unit U-CAP, input_from_handle_decision).
+INPUT_FROM_SPEC = '''ensures
+        handle.slice_v() matches Some(b) ==> (r matches Input::Slice(c) && c@ == b),
+        handle.slice_v() is None ==> {
+            &&& (handle.rd_eof() ==> (r matches Input::Slice(c) && c@ == handle.rd_captured()))
+            &&& (!handle.rd_eof() ==> r is Reader)
+        },'''
 HANDLE_VIEW = r'''
     spec fn hwf(&self) -> bool {
         match self.0 { Source::Slice(_) => true, Source::Reader(g) => g.0.wf() }
     }
+    // views for the contract of the (public) trait method `From<Handle> for Input`
+    pub closed spec fn slice_v(&self) -> Option<Seq<u8>> { match self.0 { Source::Slice(b) => Some(b@), Source::Reader(_) => None } }
+    pub closed spec fn rd_eof(&self) -> bool { match self.0 { Source::Slice(_) => false, Source::Reader(g) => g.0.source_eof } }
+    pub closed spec fn rd_captured(&self) -> Seq<u8> { match self.0 { Source::Slice(_) => Seq::empty(), Source::Reader(g) => g.0.captured_v() } }
+    pub closed spec fn rd_source(&self) -> Option<Box<dyn Read + 'i>> { match self.0 { Source::Slice(_) => None, Source::Reader(g) => Some(g.0.source) } }
 '''
 REF_VIEW = r'''
     spec fn rwf(&self) -> bool {
@@ -150,11 +173,16 @@ ITEMS = [
     dict(raw='impl<R> FusedReader<R>\nwhere\n\tR: Read,\n{'),
     dict(src=SRC, kind='fn', name='new', within_impl=FR_IMPL, contract=dict(ret='f', spec='ensures f.0 == Some(r),')),
     dict(src=SRC, kind='fn', name='read', within_impl=FR_READ_IMPL, contract=dict(ret='r', spec=FUSED_READ_SPEC)),
-    dict(raw='}'),
+    # (the verified `read` above sits in an inherent impl (T4); this external impl only tells the type checker that FusedReader is a Read)
+    dict(raw='}\n#[verifier::external]\nimpl<R: Read> Read for FusedReader<R> { fn read(&mut self, buf: &mut [u8]) -> io::Result<usize> { unimplemented!() } }'),
     dict(src=SRC, kind='struct', name='GuardedCaptureReader'),
     dict(raw='impl<R> GuardedCaptureReader<R>\nwhere\n\tR: Read,\n{'),
     dict(src=SRC, kind='fn', name='new', within_impl=GR_IMPL, contract=dict(ret='g', spec=GUARD_NEW_SPEC)),
     dict(src=SRC, kind='fn', name='rewind_and_borrow_mut', within_impl=GR_IMPL, contract=dict(ret='r', spec=GUARD_BORROW_SPEC)),
+    # (T15) `mut self` receivers are not supported by Verus: `fn f(mut self) { ..self.. }` becomes `fn f(self) { let mut verus_self = self; ..verus_self.. }`
+    dict(src=SRC, kind='fn', name='rewind_and_take', within_impl=GR_IMPL,
+         contract=dict(ret='r', spec=GUARD_TAKE_SPEC, prologue='let mut verus_self = self;',
+                       rewrites=[dict(find=r'\(\s*mut\s+self\s*\)', to='(self)', required=True), dict(find=r'\bself\s*\.', to='verus_self.')])),
     dict(raw='}'),
     dict(src=SRC, kind='struct', name='Handle'),
     dict(src=SRC, kind='enum', name='Source'),
@@ -162,6 +190,12 @@ ITEMS = [
     dict(raw="impl<'i> Handle<'i> {" + HANDLE_VIEW),
     dict(src=SRC, kind='fn', name='from_slice', within_impl=H_IMPL, contract=dict(ret='h', spec=FROM_SLICE_SPEC)),
     dict(src=SRC, kind='fn', name='borrow_mut', within_impl=H_IMPL, contract=dict(ret='r', spec=BORROW_SPEC)),
+    dict(raw='}'),
+    dict(src=SRC, kind='enum', name='Input', drop_vis=True, wrap=('pub', '')),
+    dict(raw="impl<'i> vstd::std_specs::convert::FromSpecImpl<Handle<'i>> for Input<'i> {\n    open spec fn obeys_from_spec() -> bool { false }\n    open spec fn from_spec(h: Handle<'i>) -> Input<'i> { arbitrary() }\n}\nimpl<'i> From<Handle<'i>> for Input<'i> {"),
+    dict(src=SRC, kind='fn', name='from', within_impl=r"\bimpl\s*<'i>\s+From\s*<Handle\s*<'i>>\s+for\s+Input\s*<'i>", contract=dict(ret='r', spec=INPUT_FROM_SPEC, prologue=BU,
+                       # (T6') `a.chain(b)` -> stand-in `io_chain(a, b)`
+                       rewrites=[dict(find=r'(FusedReader::new\(\s*\w+\s*\))\s*\.\s*chain\(\s*(\w+)\s*\)', to=r'io_chain(\1, \2)', expand=True)])),
     dict(raw='}'),
     dict(raw="impl<'i, 'h> Ref<'i, 'h>\nwhere\n\t'i: 'h,\n{" + REF_VIEW),
     dict(src=SRC, kind='fn', name='prefix', within_impl=REF_IMPL, contract=dict(ret='r', spec=PREFIX_SPEC)),
